@@ -304,6 +304,7 @@ def r4(F, R):
     b = C07.estimator_inlined(F, b0)
     site = "%s @%s" % (b.path, b.loc())
     found = False
+    undecided = []
     for sw, blk in enumerate(b.blocks):
         t = blk["term"]
         if blk["cleanup"] or t["k"] != "switch" or t.get("discr_ty") != "bool":
@@ -326,18 +327,20 @@ def r4(F, R):
         early_f, es = C07.estimator_feed(b, tgt_false, {l: False for l in known_l if l is not None}, avoid=[sw])
         if not ls and not es:
             continue
-        found = True
         lsite = "%s @%s" % (b.path, loc((ls or es)[0][1]["span"]))
         sym = {f for f in late_f | early_f if "sym" in str(f)}
         if late_f and early_f and late_f <= sym and not (early_f & sym) and "?" not in late_f | early_f:
+            found = True
             R.ok("C09-R4", b.path + ":lanes", lsite, "late estimator (%s) on is_late, early estimator (%s) otherwise" % (sorted(late_f), sorted(early_f)))
         elif late_f and early_f and early_f <= sym and not (late_f & sym):
+            found = True
             R.bad("C09-R4", b.path + ":lanes", lsite, "early/late estimator updates are swapped with respect to is_late")
         else:
-            R.bad("C09-R4", b.path + ":lanes", lsite, "on the is_late edge the estimator is fed %s, on the other edge %s; expected the symmetric statistic on is_late only" % (
-                sorted(late_f), sorted(early_f)))
+            # a test of is_late that does not choose the statistic (e.g. `could_switch && !is_late`): both lanes lie behind both edges
+            undecided.append((sorted(late_f), sorted(early_f)))
     if not found:
-        R.bad("C09-R4", b.path + ":lanes", site, "no branch on `next_window + draw > final window` selecting the statistic fed to the step-size estimator")
+        R.bad("C09-R4", b.path + ":lanes", site, "no branch on `next_window + draw > final window` selects the statistic fed to the step-size estimator "
+              "(lanes behind the is_late tests found: %s)" % undecided[:3])
     R.floor("C09-R4", 1)
 
 
